@@ -43,6 +43,10 @@ CLAIMED = {
    text="Samplers.tla states the row bookkeeping rules (n rows per parameter row, pairing in order, product = first factor sampled with the rows of the second as parameters, sum = concatenation, append = column stack, static = cached, len = rows of a parameter-free call) as a recursive checker over decoded tables; TLC model-checks the code-shaped construction (repeat/repeat_interleave, evaluation order) against it for every AST, enumerates all sampler compositions up to depth 2 with 0/1/3 parameter rows, and validates the tables the real samplers return.",
    note="Trusted: TLC; the id decoding of cells (moving interval reveals t, data ids k/16, grid position in twelfths). Bounded: 7 leaf kinds, n <= 3, depth <= 2, k in {0,1,3}; density-based samplers are covered by C10/C01, not here.",
    technique="TLA+ Impl=>Abs model checking of the table construction + exhaustive AST enumeration by TLC + TLC trace validation", ref="5 C02"),
+ "C06": dict(
+   text="For boundaries of all primitives (slanted, clockwise, parameter-dependent, 1-D..3-D) and of TLC-generated nested unions/cuts/intersections, normal() is recorded at the points of the boundary's own random and grid samplers; TLC checks on the exact denotation that each normal is finite, of unit length and outward (a step along it leaves the set, a step against it enters), independently of how the library computes normals.",
+   note="Trusted: TLC, vh/universe.py. Steps of 8/4/2 fine units (1/256); samples within 16/256 of a second primitive's boundary or at a corner of the primitive itself (ring test) are skipped and counted; normals of translated/rotated boundaries are not part of the API (no normal method).",
+   technique="TLC trace validation of recorded normals against the TLA+ denotation (outward step test)", ref="5 C06"),
 }
 PENDING_REASON = "check not built yet in this round (design in DESIGN.md section 5); not claimed"
 
